@@ -147,3 +147,13 @@ def linear_certificate(fn, tainted_inputs, zero_inputs=None):
             return 'refuted', 'operator trace differs between two inputs of the same shape ' \
                               '(input-dependent control flow)', info
     return status, detail, info
+
+
+def reload_in_place(mod, donor):
+    """overwrite mod's buffers / parameters in place with donor's (load_state_dict); False if the
+    library refuses (e.g. the two modules no longer have buffers of the same shape)"""
+    try:
+        mod.load_state_dict(donor.state_dict())
+        return True
+    except Exception:
+        return False
